@@ -51,7 +51,7 @@ CHECKS = {
    ref="5/C18"),
  "C19": dict(
    technique="runtime monitoring with process isolation: mutated serialisations are loaded in a child process under RLIMIT_AS / RLIMIT_CPU and a wall-clock watchdog, each input under catch_unwind; the parent attributes signals, exit status and stalls to single inputs; every store a loader returns goes through the dump self-consistency checker (C01-C03), the canonical observation and re-serialisation",
-   text="Valid STAM JSON, STAM CSV and CBOR serialisations of stores from seeded histories are mutated (line-wise JSON edits incl. extreme numbers, temporary ids with extreme numbers, @type swaps, rewired references, retyped values, truncation; store files that @include each other (cycles, self-include, diamond, missing file) loaded from another directory than the current one; CSV cell and list-element edits in manifest, annotation and dataset files; CBOR truncation at every short length, bit flips, length bytes) and loaded through from_str / from_file, AnnotationBuilder::from_json_str, annotate_from_file, AnnotationDataSet::from_file, plus hostile strings for the Cursor / Type / SelectorKind / DataFormat parsers. No input may panic, abort, exceed the CPU limit or stall, and an accepted store must be self-consistent. Held on the inputs observed except two recorded findings.",
+   text="Valid STAM JSON, STAM CSV and CBOR serialisations of stores from seeded histories are mutated (line-wise JSON edits incl. extreme numbers, temporary ids with extreme numbers, @type swaps, rewired references, retyped values, truncation; new annotations grafted from the sub-selectors that occur in the valid serialisation (every combination of selector kinds under Multi/Composite/Directional); store files that @include each other (cycles, self-include, diamond, missing file) loaded from another directory than the current one; CSV cell and list-element edits in manifest, annotation and dataset files; CBOR truncation at every short length, bit flips, length bytes) and loaded through from_str / from_file, AnnotationBuilder::from_json_str, annotate_from_file, AnnotationDataSet::from_file, plus hostile strings for the Cursor / Type / SelectorKind / DataFormat parsers. No input may panic, abort, exceed the CPU limit or stall, and an accepted store must be self-consistent. Held on the inputs observed except two recorded findings.",
    note="Trusted: dumpcheck.rs. The memory bound is the child's RLIMIT_AS (3 GiB): allocations below it that are driven by a number in the input are not noticed. Time proportional to the input is judged on thread CPU time with 2 s + 1 ms/byte per input; a wall-clock stall is inconclusive, never a verdict.",
    ref="5/C19"),
  "C20": dict(
